@@ -26,6 +26,9 @@ EXPLANATION = (
     "Path(shape) and Shape.__eq__ all go through segments(). Not decided: curved edges lying on the specified ellipse for "
     "all parameters (the axis-aligned Arc(rx=, ry=) constructor picks its centre by orientation tests); bbox/length "
     "equality."
+    " R06.7: abs(shape) - the 'transformed form' - is a copy that has been reified; the reify algebra of C02"
+    ' therefore runs here as well. R06.2 is driven by per-radius zero facts: with both radii given, the cells'
+    " 'rx is zero', 'ry is zero' and 'both' must each end with square corners."
 )
 TECHNIQUE = (
     "static analysis (no execution): segment-sequence extraction from segments() (value numbering, constant loops unrolled, index loops summarised by induction) compared with the SVG 2 chapter 10 equivalent paths; corner decision table by dispatch extraction; save/restore path check"
